@@ -172,12 +172,19 @@ type c07Run struct {
 	tr         *kit.Tracer // recording pass only
 	// directed scenarios: the generator is held before item 2 until the reducer has written; the reducer is held
 	// before its write until the driver has observed the cancel / the context to be recorded inside the call
-	genGate, redGate chan struct{}
-	genOnce, redOnce sync.Once
+	// "workers-held": every mapper waits inside the user function until the driver has seen the whole call at rest
+	genGate, redGate, holdGate chan struct{}
+	genOnce, redOnce, holdOnce sync.Once
 }
 
-func (r *c07Run) openGen() { r.genOnce.Do(func() { close(r.genGate) }) }
-func (r *c07Run) openRed() { r.redOnce.Do(func() { close(r.redGate) }) }
+// gated: the directed scenarios that hold the generator before item 2 and the reducer before its write
+func (r *c07Run) gated() bool {
+	return r.sc.Order == "cancel-before-write" || r.sc.Order == "ctx-before-write"
+}
+
+func (r *c07Run) openGen()  { r.genOnce.Do(func() { close(r.genGate) }) }
+func (r *c07Run) openRed()  { r.redOnce.Do(func() { close(r.redGate) }) }
+func (r *c07Run) openHold() { r.holdOnce.Do(func() { close(r.holdGate) }) }
 
 func (r *c07Run) ev(name string, kv ...any) {
 	if r.tr == nil {
@@ -232,7 +239,7 @@ func (r *c07Run) generate(source chan<- any) {
 	}
 	for i := 1; i <= limit; i++ {
 		r.jitter()
-		if r.sc.Order != "" && i == 2 {
+		if r.gated() && i == 2 {
 			<-r.genGate
 		}
 		r.ev("gen_send", "i", i)
@@ -263,6 +270,9 @@ func (r *c07Run) mapItem(i int, write func(v any), cancel func(error)) error {
 		r.ev("map_end", "i", i)
 		atomic.AddInt32(&r.running, -1)
 	}()
+	if r.sc.Order == "workers-held" {
+		<-r.holdGate
+	}
 	r.jitter()
 	switch b := r.sc.MB[i-1]; b {
 	case "w0":
@@ -311,7 +321,7 @@ func (r *c07Run) reduce(pipe <-chan any, write func(v any), cancel func(error)) 
 			}
 		}
 	}
-	if r.sc.Order != "" {
+	if r.gated() {
 		<-r.redGate
 	}
 	for k := 1; k <= r.sc.RW; k++ {
@@ -319,7 +329,7 @@ func (r *c07Run) reduce(pipe <-chan any, write func(v any), cancel func(error)) 
 		r.ev("red_write", "k", k)
 		write("R" + strconv.Itoa(k))
 	}
-	if r.sc.Order != "" {
+	if r.gated() {
 		r.openGen()
 	}
 	r.jitter()
@@ -446,16 +456,20 @@ func (j *c07Judge) related(snap []c07G) []c07G {
 	return out
 }
 
-// waitRecorded polls goroutine snapshots until the cancel of the directed scenario is known to be recorded inside
-// the call: cancel's body records the error first and then drains the source, where it must block because the
-// generator is held; so a goroutine inside mr.drain below the mapper's cancel (or below the caller's context branch)
-// proves the recording.  1 = observed, 0 = the call returned first, -1 = neither within 20 s.
+// waitRecorded polls goroutine snapshots of a directed scenario.
+//   1  the cancel is known to be recorded inside the call: cancel's body records the error first and then drains the
+//      source, where it must block because the generator is held; so a goroutine inside mr.drain below the mapper's
+//      cancel (or below the caller's context branch) proves the recording;
+//   2  the whole call is at rest (every goroutine of it blocked on a channel / lock, in two stop-the-world snapshots
+//      50 ms apart) without that;  for "workers-held" this is the state waited for;
+//   0  the call returned first;  -1  none of these within 20 s (the call is still making progress / machine stalled).
 func (j *c07Judge) waitRecorded(order string, callDone chan struct{}) int {
 	mark := "(*c07Run).mapItem"
 	if order == "ctx-before-write" {
 		mark = "(*c07Run).call("
 	}
 	deadline := time.Now().Add(20 * time.Second)
+	var restSince time.Time
 	for i := 0; ; i++ {
 		select {
 		case <-callDone:
@@ -466,10 +480,27 @@ func (j *c07Judge) waitRecorded(order string, callDone chan struct{}) int {
 			runtime.Gosched()
 			continue
 		}
-		for _, g := range j.related(c07Snapshot()) {
-			if c07Blocked(g.state) && strings.Contains(g.text, "god/lib/mr.drain") && strings.Contains(g.text, mark) {
-				return 1
+		gs := j.related(c07Snapshot())
+		if order != "workers-held" {
+			for _, g := range gs {
+				if c07Blocked(g.state) && strings.Contains(g.text, "god/lib/mr.drain") && strings.Contains(g.text, mark) {
+					return 1
+				}
 			}
+		}
+		if len(gs) > 0 && allBlocked(gs) {
+			if restSince.IsZero() {
+				restSince = time.Now()
+			} else if time.Since(restSince) >= 50*time.Millisecond {
+				select {
+				case <-callDone:
+					return 0
+				default:
+				}
+				return 2
+			}
+		} else {
+			restSince = time.Time{}
 		}
 		if time.Now().After(deadline) {
 			return -1
@@ -527,7 +558,7 @@ func (j *c07Judge) adopt(gs []c07G) {
 func (j *c07Judge) runOnce(sc *c07Scenario, seed int64) *c07Fail {
 	r := &c07Run{sc: sc, seed: seed, mapped: make([]int32, sc.N+1), gate: make(chan struct{}),
 		errs: make([]*c07Err, sc.N+1), errR: &c07Err{"ER"}, rng: rand.New(rand.NewSource(seed)), tr: j.tr,
-		genGate: make(chan struct{}), redGate: make(chan struct{})}
+		genGate: make(chan struct{}), redGate: make(chan struct{}), holdGate: make(chan struct{})}
 	for i := 1; i <= sc.N; i++ {
 		r.errs[i] = &c07Err{"E" + strconv.Itoa(i)}
 	}
@@ -543,7 +574,7 @@ func (j *c07Judge) runOnce(sc *c07Scenario, seed int64) *c07Fail {
 		r.ctx, r.cancelCtx = context.WithCancel(context.Background())
 		r.fireAt = int32(r.rnd(3*sc.N + 8)) // 0: from the controller right away
 		ctlDone = 0
-		if sc.Order != "" { // directed: the driver itself cancels the context, right after the call was started
+		if r.gated() { // directed: the driver itself cancels the context, right after the call was started
 			r.fireAt, ctlDone = -1, 1
 		}
 	}
@@ -558,7 +589,7 @@ func (j *c07Judge) runOnce(sc *c07Scenario, seed int64) *c07Fail {
 			defer close(src)
 			for i := 1; i <= sc.N; i++ {
 				r.jitter()
-				if sc.Order != "" && i == 2 {
+				if r.gated() && i == 2 {
 					<-r.genGate
 				}
 				r.ev("gen_send", "i", i)
@@ -581,7 +612,7 @@ func (j *c07Judge) runOnce(sc *c07Scenario, seed int64) *c07Fail {
 		defer close(callDone)
 		out = r.call(src)
 	}()
-	if sc.Ctx == "during" && sc.Order == "" {
+	if sc.Ctx == "during" && !r.gated() {
 		go func() { // makes sure the context becomes done even if the run is stuck before tick fireAt
 			defer atomic.StoreInt32(&ctlDone, 1)
 			if r.fireAt > 0 {
@@ -604,8 +635,43 @@ func (j *c07Judge) runOnce(sc *c07Scenario, seed int64) *c07Fail {
 		}()
 	}
 
-	// ---- directed scenarios: establish the ordering, then release the reducer
-	if sc.Order != "" {
+	// ---- directed scenarios
+	defer r.openGen()
+	defer r.openRed()
+	defer r.openHold()
+	// abandon: after a verdict in the middle of a directed scenario, let the call run to its end
+	abandon := func() {
+		r.openRed()
+		r.openGen()
+		r.openHold()
+		close(r.gate)
+		select {
+		case <-callDone:
+		case <-time.After(5 * time.Second):
+		}
+		for i := 0; i < 2000 && runtime.NumGoroutine() > base; i++ {
+			time.Sleep(500 * time.Microsecond)
+		}
+		if runtime.NumGoroutine() > base {
+			j.adopt(j.related(c07Snapshot()))
+		}
+	}
+	switch {
+	case sc.Order == "workers-held":
+		// every mapper waits inside the user function: once the whole call is at rest, the number inside is exact
+		switch j.waitRecorded(sc.Order, callDone) {
+		case 2:
+			j.rep.Count("workers_held_at_rest", 1)
+			j.rep.Count("workers_held_inside_"+strconv.Itoa(int(atomic.LoadInt32(&r.running))), 1)
+		case 0:
+		default:
+			gs := j.related(c07Snapshot())
+			abandon()
+			return &c07Fail{infra: true, msg: fmt.Sprintf("%s: the call did not come to rest with its mappers held within 20s: %s", sc, c07Describe(gs))}
+		}
+		r.openHold() // the bound itself is judged below, like in every scenario without cancellation (maxRunning)
+	case r.gated():
+		// establish the ordering, then release the reducer
 		if sc.Order == "ctx-before-write" {
 			r.fireCtx()
 		}
@@ -619,18 +685,25 @@ func (j *c07Judge) runOnce(sc *c07Scenario, seed int64) *c07Fail {
 			}
 		case 0: // the call returned before anything could be observed: no ordering is claimed
 			j.rep.Count("ordering_not_established", 1)
+		case 2:
+			gs := j.related(c07Snapshot())
+			if sc.Order == "ctx-before-write" {
+				// the driver has cancelled the context it passed to the call; the whole call is at rest (twice, 50 ms
+				// apart, in stop-the-world snapshots) and the caller has not reacted: the context is ignored
+				abandon()
+				return &c07Fail{key: "C07:ctx:ignored:" + sc.API,
+					msg: fmt.Sprintf("%s: the context passed with WithContext was cancelled by the driver, yet the call stays at rest without "+
+						"handling it (a done context must make it return DeadlineExceeded): %s\n%s", sc, c07Describe(gs), c07Full(gs))}
+			}
+			abandon()
+			return &c07Fail{infra: true, msg: fmt.Sprintf("%s: the call is at rest but no goroutine is inside cancel's drain of the source: %s", sc, c07Describe(gs))}
 		default:
 			gs := j.related(c07Snapshot())
-			r.openRed()
-			r.openGen()
-			close(r.gate)
-			j.adopt(gs)
-			return &c07Fail{infra: true, msg: fmt.Sprintf("%s: the cancel was not seen to be recorded (no goroutine inside cancel's drain of the source) within 20s: %s", sc, c07Describe(gs))}
+			abandon()
+			return &c07Fail{infra: true, msg: fmt.Sprintf("%s: the cancel was not seen to be recorded (no goroutine inside cancel's drain of the source) within 20s, and the call is not at rest: %s", sc, c07Describe(gs))}
 		}
 		r.openRed()
 	}
-	defer r.openGen()
-	defer r.openRed()
 
 	// ---- the call returns
 	start := time.Now()
